@@ -188,7 +188,13 @@ def run(ctx):
                     if stt == 200:
                         ghost = js['start_job_id']
                         next_job = ghost + 2
-                        victim['absolute_parent_ids'] = [ghost]
+                        if s.draw(2):
+                            victim['absolute_parent_ids'] = [ghost]
+                        else:
+                            # the same dependency written as a zero / negative in-update id: the front end converts
+                            # it to start_job_id + p - 1, which lands in the earlier, never-filled range
+                            victim['in_update_parent_ids'] = [ghost - next_job + 1]
+                            ctx.probe('ghost_parent_as_negative_in_update_id')
                         ctx.probe('ghost_range_reserved')
                     else:
                         mut = 'none'
